@@ -72,6 +72,7 @@ type VC struct {
 	usedContracts map[string]bool
 	oblCount map[string]int
 	condAxioms []condAxiom
+	opaqueArith bool
 }
 
 type condAxiom struct {
@@ -222,7 +223,133 @@ func (vc *VC) Query(prelude string, o *Obligation) string {
 		}
 		b.WriteString("))\n")
 	}
+	if vc.opaqueArith {
+		return opaqueArithRewrite(b.String())
+	}
 	return b.String()
+}
+
+// opaqueArithRewrite replaces every binary (* a b), (div a b), (mod a b) whose operands are both non-literal by an
+// application of an uninterpreted function with sign/range facts only. This only loses facts (each fact stated holds
+// of the real operator), so proofs stay sound; it keeps nonlinear arithmetic out of queries whose proof does not need it.
+func opaqueArithRewrite(q string) string {
+	var out strings.Builder
+	used := map[string]bool{}
+	i := 0
+	n := len(q)
+	isLit := func(t string) bool {
+		t = strings.TrimSpace(t)
+		if strings.HasPrefix(t, "(- ") && strings.HasSuffix(t, ")") {
+			t = strings.TrimSpace(t[3 : len(t)-1])
+		}
+		if t == "" {
+			return false
+		}
+		for _, c := range t {
+			if c < '0' || c > '9' {
+				return false
+			}
+		}
+		return true
+	}
+	// split the arguments of the application starting at position p (just after the operator), return args and end index (position of ')')
+	args := func(p int) ([]string, int) {
+		var as []string
+		for p < n {
+			for p < n && (q[p] == ' ' || q[p] == '\n' || q[p] == '\t') {
+				p++
+			}
+			if p >= n {
+				break
+			}
+			if q[p] == ')' {
+				return as, p
+			}
+			s := p
+			if q[p] == '(' {
+				d := 0
+				for p < n {
+					if q[p] == '(' {
+						d++
+					} else if q[p] == ')' {
+						d--
+						if d == 0 {
+							p++
+							break
+						}
+					} else if q[p] == '|' {
+						p++
+						for p < n && q[p] != '|' {
+							p++
+						}
+					}
+					p++
+				}
+			} else if q[p] == '|' {
+				p++
+				for p < n && q[p] != '|' {
+					p++
+				}
+				p++
+			} else {
+				for p < n && q[p] != ' ' && q[p] != ')' && q[p] != '\n' && q[p] != '(' {
+					p++
+				}
+			}
+			as = append(as, q[s:p])
+		}
+		return as, p
+	}
+	ops := map[string]string{"*": "nl_mul", "div": "nl_div", "mod": "nl_mod"}
+	for i < n {
+		c := q[i]
+		if c == '(' {
+			j := i + 1
+			for j < n && q[j] != ' ' && q[j] != ')' && q[j] != '(' {
+				j++
+			}
+			if nm, ok := ops[q[i+1:j]]; ok && j < n && q[j] == ' ' {
+				as, _ := args(j)
+				if len(as) == 2 && !isLit(as[0]) && !isLit(as[1]) {
+					used[nm] = true
+					out.WriteString("(" + nm)
+					i = j
+					continue
+				}
+			}
+		}
+		out.WriteByte(c)
+		i++
+	}
+	if len(used) == 0 {
+		return q
+	}
+	var decl strings.Builder
+	if used["nl_mul"] {
+		decl.WriteString("(declare-fun nl_mul (Int Int) Int)\n(assert (forall ((a Int) (b Int)) (! (and (=> (and (>= a 0) (>= b 0)) (>= (nl_mul a b) 0)) (=> (or (= a 0) (= b 0)) (= (nl_mul a b) 0))) :pattern ((nl_mul a b)))))\n")
+	}
+	if used["nl_div"] {
+		decl.WriteString("(declare-fun nl_div (Int Int) Int)\n(assert (forall ((a Int) (b Int)) (! (=> (and (>= a 0) (> b 0)) (and (<= 0 (nl_div a b)) (<= (nl_div a b) a))) :pattern ((nl_div a b)))))\n")
+	}
+	if used["nl_mod"] {
+		decl.WriteString("(declare-fun nl_mod (Int Int) Int)\n(assert (forall ((a Int) (b Int)) (! (=> (> b 0) (and (<= 0 (nl_mod a b)) (< (nl_mod a b) b))) :pattern ((nl_mod a b)))))\n")
+	}
+	res := out.String()
+	// declarations go after the leading option/logic lines
+	pos := 0
+	for {
+		nl := strings.IndexByte(res[pos:], '\n')
+		if nl < 0 {
+			break
+		}
+		line := res[pos : pos+nl]
+		if strings.HasPrefix(line, "(set-") || strings.HasPrefix(line, ";") || strings.TrimSpace(line) == "" {
+			pos += nl + 1
+			continue
+		}
+		break
+	}
+	return res[:pos] + decl.String() + res[pos:]
 }
 
 func and(ts ...string) string {
